@@ -136,7 +136,7 @@ def judge_trusted(case, impl, model):
                     and not model.get("baseChain") and "regularMapped" in model
                     and not _uses_unmapped_names(cls, case["doc"], case.get("mapperSpec") or {})
                     and _extras_quiet(cls, case["doc"], case.get("mapperSpec") or {}, impl.get("opts_actual") or {}))
-    if mapped_scope:
+    if mapped_scope and not _has_set_of_struct_with_defaults(cls):
         m_reg = _loose_err(SD.res_diff("regular deserialize (with mappers)", model["regularMapped"], reg,
                                        errs=("TypeError", "ValueError", "InvalidStructureErr")))
         if m_reg:
@@ -145,7 +145,9 @@ def judge_trusted(case, impl, model):
     eligible = model.get("verdict") in ("flat", "nested")
     # (before /repo c4803f1 CPython deduplicated Set[Structure] elements by a hash of str(instance) while the model
     #  deduplicates by ==; since then equal structures hash alike and sets of structures are corresponded like the rest)
-    set_of_struct = False
+    #  except where a field default is involved: the trusted constructor does not store defaults, `==` / hash() read them,
+    #  the model's `==` on instances (attribute lists) does not (finding defaults-not-applied)
+    set_of_struct = _has_set_of_struct_with_defaults(cls)
     if set_of_struct:
         m_reg = None
         msgs[:] = [m for m in msgs if not m.startswith("regular deserialize")]
@@ -239,6 +241,24 @@ def _has_set_of_struct(d):
         return any(_has_set_of_struct(v) for v in d.values())
     if isinstance(d, list):
         return any(_has_set_of_struct(x) for x in d)
+    return False
+
+
+def _has_set_of_struct_with_defaults(d):
+    if isinstance(d, dict):
+        if d.get("k") == "setOf" and _contains_defaults(d.get("item")):
+            return True
+        return any(_has_set_of_struct_with_defaults(v) for v in d.values())
+    if isinstance(d, list):
+        return any(_has_set_of_struct_with_defaults(x) for x in d)
+    return False
+
+
+def _contains_defaults(d):
+    if isinstance(d, dict):
+        return (d.get("k") == "struct" and bool(d.get("defaults"))) or any(_contains_defaults(v) for v in d.values())
+    if isinstance(d, list):
+        return any(_contains_defaults(x) for x in d)
     return False
 
 
